@@ -1258,6 +1258,54 @@ fn gemm_block<LhsT: Sync, RhsT: Sync, OutT: GemmOutT>(
         });
 }
 
+/// Verification hooks: construct an executor for every kernel available on
+/// this system. Not part of the stable API.
+#[cfg(feature = "verif_hooks")]
+pub mod verif {
+    use super::{F32KernelType, GemmExecutor, Int8KernelType, WithKernel};
+    use std::sync::atomic::{AtomicBool, Ordering};
+
+    /// When set, AVX-512 int8 kernels are constructed without VNNI support,
+    /// so the saturating fallback path is reachable on hosts that have VNNI.
+    pub static DISABLE_VNNI: AtomicBool = AtomicBool::new(false);
+
+    pub fn vnni_disabled() -> bool {
+        DISABLE_VNNI.load(Ordering::SeqCst)
+    }
+
+    /// All f32 executors available on this system, with a label.
+    pub fn f32_kernels() -> Vec<(String, GemmExecutor<f32, f32, f32>)> {
+        GemmExecutor::<f32, f32, f32>::kernel_types()
+            .into_iter()
+            .filter_map(|kt| {
+                GemmExecutor::<f32, f32, f32>::with_kernel(kt).map(|g| (format!("{:?}", kt), g))
+            })
+            .collect()
+    }
+
+    /// All u8 x i8 -> i32 executors available on this system, with a label.
+    /// Includes AVX-512 without VNNI when the AVX-512 kernel is available.
+    pub fn int8_kernels() -> Vec<(String, GemmExecutor<u8, i8, i32>)> {
+        let mut out: Vec<(String, GemmExecutor<u8, i8, i32>)> = Vec::new();
+        for kt in GemmExecutor::<u8, i8, i32>::kernel_types() {
+            if let Some(g) = GemmExecutor::<u8, i8, i32>::with_kernel(kt) {
+                out.push((format!("{:?}", kt), g));
+            }
+            #[cfg(target_arch = "x86_64")]
+            if matches!(kt, Int8KernelType::Avx512) {
+                DISABLE_VNNI.store(true, Ordering::SeqCst);
+                let g = GemmExecutor::<u8, i8, i32>::with_kernel(kt);
+                DISABLE_VNNI.store(false, Ordering::SeqCst);
+                if let Some(g) = g {
+                    out.push(("Avx512NoVnni".to_string(), g));
+                }
+            }
+        }
+        let _ = F32KernelType::Generic;
+        out
+    }
+}
+
 mod reduced_range_rng;
 
 /// TODO - Move this to the rten-base crate.
